@@ -598,8 +598,22 @@ func (c *eCase) run(mode string) []reqRec {
 	ctx := context.Background()
 	store := memdb.NewMemDb()
 	store.Connect(ctx, "")
+	return c.runPers(store, c.inputs, &ncalls, nil)
+}
+
+// runPers serves the inputs with a fresh engine and persister per request over the given store.
+// before, if not nil, is called before each request with its index.
+func (c *eCase) runPers(store db.Db, inputs [][]byte, ncallsp *int, before func(i int)) []reqRec {
+	var recs []reqRec
+	cfg := c.config()
+	ctx := context.Background()
+	ncalls := *ncallsp
+	defer func() { *ncallsp = ncalls }()
 	stopped := false
-	for _, in := range c.inputs {
+	for ii, in := range inputs {
+		if before != nil {
+			before(ii)
+		}
 		if stopped {
 			recs = append(recs, reqRec{x: "stopped"})
 			continue
